@@ -13,7 +13,7 @@ CLAIMS = {
         "Decides necessary structural clauses for all 30 exported pool strategies and their helpers: the batch size every query uses is the clipped "
         "value returned by the validator (and the validator clips); arrays scattered through the candidate mapping are NaN-filled (only candidates carry numbers); "
         "in each of the 15 sequential selection loops the operand of the selection depends on earlier picks (loop-carried) and the masked picks are the returned picks; "
-        "no local is read unbound on any feasible (branch-correlated) path; multi-element index draws are without replacement. "
+        "the exclusion is an explicit mechanism that lies on every path to the selection, is not overwritten before it, and - where a helper sees only the latest pick - is carried from the previous row by a must value-flow; positions selected over a shrunk or sub-sampled pool are translated back; no local is read unbound on any feasible (branch-correlated) path; multi-element index draws are without replacement. "
         "Not decided: that custom loops fill all slots, numerical termination, dtype of the result.",
         "Dependence is flow-insensitive within a loop body (necessary condition); 6 infeasible definite-assignment residuals are listed one symbol at a time in the checker.",
         "DESIGN.md section 3 C01",
@@ -21,8 +21,8 @@ CLAIMS = {
     "C02": (
         "statement-order (structural dominance) and dependence analysis of selection loops; NaN-discipline of scatter targets",
         "Decides: in every selection loop the NaN mask of the current pick is applied only after the returned row was snapshotted (or to an array that is not returned); "
-        "a mask of earlier picks on the returned row is matched by an exclusion in the operand the selection reads; utilities scattered through the mapping are NaN elsewhere. "
-        "The numerical arg-max relation and positivity of sampling mass are not decided.",
+        "a mask of earlier picks on the returned row is matched by an exclusion in the operand the selection reads; utilities scattered through the mapping are NaN elsewhere; the exclusion reaches the selection on every path and zero-mass masks are only scaled before a draw; for sampling-based selections the distribution handed to choice(p=...) is the recorded row. "
+        "The numerical arg-max relation and the sampling mass as numbers are not decided.",
         "Structured control flow only; the arg-max relation is the contract of rand_argmax (C18).",
         "DESIGN.md section 3 C02",
     ),
@@ -48,7 +48,7 @@ CLAIMS = {
         "Decides the four structural premises of the bound for the 6 budget-enforcing managers and the 2 baseline strategies: every grant is reachable/true only "
         "under the budget guard of its iteration (through guard variables, list-tail reads, conditional expressions; only allow_exceeding_budget may disjoin); the guard "
         "compares the running spent-estimate with budget_ in the admitting direction; the estimate is advanced from its previous value and the grant indicator on every path; "
-        "update commits every seeding attribute from queried_indices/candidates. The numerical bound itself follows by arithmetic that is not in the code and is not decided.",
+        "update commits every seeding attribute from queried_indices/candidates, with the same per-candidate transition the simulation applies (syntactic agreement after normalisation). The numerical bound itself follows by arithmetic that is not in the code and is not decided.",
         "Strict vs non-strict comparison is not judged; BalancedIncrementalQuantileFilter is excluded (not budget-enforcing).",
         "DESIGN.md section 3 C04",
     ),
@@ -63,7 +63,7 @@ CLAIMS = {
     "C08": (
         "abstract index-space typing (XROW / CAND / MASK(m)) of arrays and positions with one-level callee summaries",
         "Decides index-space agreement where both sides are known (subscripts and (array, position) pairs passed to project helpers) and that the raw candidates parameter is used only for representation tests "
-        "after _transform_candidates. Restriction invariance and permutation equivariance of the numbers are not decided.",
+        "after _transform_candidates; a per-candidate scoring loop does not read the set of all candidates; the argument in the role of the given samples does not depend on the candidate representation. Restriction invariance and permutation equivariance of the numbers are not decided.",
         "Spaces are inferred only from the idioms listed in the checker; unknown never fires (few pairs are typed on today's tree).",
         "DESIGN.md section 3 C08",
     ),
@@ -93,14 +93,14 @@ CLAIMS = {
     "C16": (
         "structural complement/dispatch/symmetry rules on the label predicates and the encoder",
         "Decides: is_labeled is the inversion of is_unlabeled with both arguments forwarded; the index helpers are argwhere of the respective predicate; is_unlabeled has exactly the isnan path (under a float-NaN sentinel test) and the cast-equality path, "
-        "both dominated by the sentinel checks; transform/inverse_transform partition by m and ~m with swapped sentinel pairs. The round trip as values and numpy casting are not decided.",
+        "both dominated by the sentinel checks; every return is element-for-element shaped like y (never sized by len(y)); the common dtype of labels and sentinel is built the same way at its three sites; transform/inverse_transform partition by m and ~m with swapped sentinel pairs. The round trip as values and numpy casting are not decided.",
         "numpy comparison/casting semantics are trusted.",
         "DESIGN.md section 3 C16",
     ),
     "C17": (
         "path-sensitive must-write analysis with value-set facts; dominance of the zeroing store; structural rules on majority_vote",
         "Decides: ext_confusion_matrix stores its output slice on every feasible path of the per-annotator loop (value set of `normalize` from the validating test); "
-        "compute_vote_vectors zeroes the bincount weights at the missing-label mask by the last dominating store; majority_vote fills with the sentinel, writes only under the "
+        "compute_vote_vectors zeroes the bincount weights at the missing-label mask by the last dominating store and pairs positions and weights in C order; majority_vote fills with the sentinel, writes only under the "
         "has-a-label mask and decodes rand_argmax over the vote matrix. Equality with the counting specification as numbers is not decided.",
         "np.bincount and sklearn's confusion_matrix are trusted to count.",
         "DESIGN.md section 3 C17",
@@ -118,7 +118,7 @@ CLAIMS = {
         "RNG provenance analysis (taint over an interprocedural abstract interpretation with constant propagation) + syntactic scan for global draws",
         "Decides the provenance clause: every random draw reachable from any public method of any estimator class or public helper "
         "derives from self.random_state(_)/a random_state argument/a literal seed and never from numpy's global generator "
-        "(random_state=None or omitted on the call path, seedless external estimators), and pool queries do not consume a caller-supplied RandomState. "
+        "(random_state=None or omitted on the call path, seedless external estimators), pool queries do not consume a caller-supplied RandomState (own draws or external estimators handed the raw object), and stream strategies / budget managers keep evolving state out of objects held by constructor parameters (twins). "
         "Bit-wise equality of outputs and determinism of third-party numerical code are not decided.",
         "Table of external estimators that draw in fit; random_state=None chosen by the user is outside the premise.",
         "DESIGN.md section 3 C06",
@@ -133,7 +133,7 @@ CLAIMS = {
     ),
     "C12": (
         "path-sensitive mask-flow analysis (which per-sample arrays are restricted to labeled rows) over the fit functions of the supervised wrappers",
-        "Decides: every per-sample array reaching the wrapped estimator's fit/partial_fit, stored as training data, or passed to a call together with a masked array is subscripted by the labeled mask on every path; "
+        "Decides: every per-sample array reaching the wrapped estimator's fit/partial_fit, stored as training data, or passed to a call together with a masked array is subscripted by the labeled mask on every path, likewise statistics kept on self and branch conditions (raise/fallback decisions) computed from such arrays; "
         "PWC/MixtureModel obtain label statistics only through compute_vote_vectors with the encoder sentinel. Equality of the two fits as numbers is not decided.",
         "The wrapped estimator's fit depends only on the arrays it is given.",
         "DESIGN.md section 3 C12",
@@ -157,7 +157,7 @@ CLAIMS = {
         "structural/dominance rules on the three wrappers plus the shared loop and NaN-discipline rules",
         "Decides: the parallel wrapper queries with batch_size=1/return_utilities=True, concatenates row 0 of the outputs in chunk order and selects by simple_batch; the sub-sampling wrapper draws without replacement, "
         "writes -inf before the subset's utilities and translates indices on the row-removal and feature-row paths; the single-annotator wrapper forces the inner picks to the top before the ordinal rank transform, "
-        "masks unavailable pairs before adding and masks chosen pairs in all later steps. Numerical equality of wrapped and unwrapped utilities is not decided.",
+        "masks unavailable pairs before adding, masks chosen pairs in all later steps, and never adds the caller's raw A_perf (untransformed) to the integer ranks. Numerical equality of wrapped and unwrapped utilities is not decided.",
         "joblib.Parallel returns results in submission order.",
         "DESIGN.md section 3 C20",
     ),
